@@ -35,7 +35,7 @@ func seekTS(acc, secret string, ts uint32, wantNUL bool) uint32 {
 
 func credentials() (acc, secret string, ts uint32) {
 	acc = vStringUpTo("acc", 6)
-	secret = vStringUpTo("secret", vParam("maxsecret"))
+	secret = c15Secret()
 	vAssume(vNoNUL(acc))
 	vAssume(vNoNUL(secret))
 	ts = vU32("ts")
@@ -87,3 +87,12 @@ func VH_C15_connect_resp() {
 	vReach("end")
 }
 
+
+// the shared secret: every string of 0..maxsecret octets, or (fixsecret > 0) every string of
+// exactly that many octets
+func c15Secret() string {
+	if n := vParam("fixsecret"); n > 0 {
+		return vString("secret", n)
+	}
+	return vStringUpTo("secret", vParam("maxsecret"))
+}
